@@ -79,9 +79,16 @@ def rand_evse(rng):
     return ["F", sorted(set(rng.choice([6, 8, 10, 12.5, 16, 24, 30, 32, 40]) for _ in range(rng.randint(1, 5))))]
 
 
+STATION_NAMES = ["S-9", "S-10", "S-11", "s-2"]      # lexicographic order differs from registration order
+
+
 def run_sim(inp):
     """inp: dict(period, stations=[dict(voltage, evse=kind)], sessions=[dict(station, arrival, departure, requested,
-    battery=spec)], script=[[pilot per station] per period], noise=[floats])"""
+    battery=spec)], script=[[pilot per station] per period], noise=[floats]).
+    Besides the two matrices, every other public view of the same quantities is recorded (network.current_charging_rates
+    and the EVSEs' current_pilot after every period, Interface.last_applied_pilot_signals / last_actual_charging_rate as
+    the scheduler sees them, the *_as_df frames), and — inp['rerun'] — the same EV objects are EV.reset() and simulated
+    a second time on a new network."""
     import numpy as np
     from acnportal.acnsim import Simulator
     from acnportal.acnsim.network import ChargingNetwork
@@ -89,11 +96,7 @@ def run_sim(inp):
     from acnportal.acnsim.models import EV
     from acnportal.algorithms import BaseAlgorithm
 
-    sids = ["S%d" % k for k in range(len(inp["stations"]))]
-    net = ChargingNetwork()
-    for sid, st in zip(sids, inp["stations"]):
-        net.register_evse(make_evse(sid, st["evse"]), st["voltage"], 0)
-
+    sids = STATION_NAMES[:len(inp["stations"])]
     noise_vals = list(inp["noise"])
     drawn = []
 
@@ -103,7 +106,7 @@ def run_sim(inp):
         return v
 
     calls = {}            # (session, period) -> noise draw used (0.0 when none)
-    evs, events = [], []
+    evs = []
     holder = {}
     for k, s in enumerate(inp["sessions"]):
         b, err = batt.construct(s["battery"])
@@ -115,48 +118,83 @@ def run_sim(inp):
             try:
                 return _orig(pilot, voltage, period)
             finally:
-                calls[(_k, holder["sim"].iteration)] = drawn[before] if len(drawn) > before else 0.0
+                if holder.get("first"):
+                    calls[(_k, holder["sim"].iteration)] = drawn[before] if len(drawn) > before else 0.0
         b.charge = charge
-        ev = EV(s["arrival"], s["departure"], s["requested"], sids[s["station"]], "sess%d" % k, b)
-        evs.append(ev)
-        events.append(PluginEvent(s["arrival"], ev))
+        evs.append(EV(s["arrival"], s["departure"], s["requested"], sids[s["station"]], "sess%d" % k, b))
 
     script = inp["script"]
 
-    class Scripted(BaseAlgorithm):
-        def __init__(self):
-            super().__init__()
-            self.max_recompute = 1
+    def one_run(record):
+        views = dict(net=[], iface=[])
 
-        def schedule(self, active_sessions):
-            t = self.interface.current_time
-            if t >= len(script):
-                return {}
-            return {sid: [script[t][k]] for k, sid in enumerate(sids)}
+        class RecNet(ChargingNetwork):
+            def post_charging_update(self):
+                if record:
+                    views["net"].append([[batt.fnum(e.current_pilot) for e in self._EVSEs.values()],
+                                         [batt.fnum(x) for x in self.current_charging_rates]])
+
+        class Scripted(BaseAlgorithm):
+            def __init__(self):
+                super().__init__()
+                self.max_recompute = 1
+
+            def schedule(self, active_sessions):
+                t = self.interface.current_time
+                if record:
+                    views["iface"].append([t, {k: batt.fnum(v) for k, v in self.interface.last_applied_pilot_signals.items()},
+                                           {k: batt.fnum(v) for k, v in self.interface.last_actual_charging_rate.items()}])
+                if t >= len(script):
+                    return {}
+                return {sid: [script[t][k]] for k, sid in enumerate(sids)}
+
+        net = RecNet()
+        for sid, st in zip(sids, inp["stations"]):
+            net.register_evse(make_evse(sid, st["evse"]), st["voltage"], 0)
+        del drawn[:]
+        err = None
+        sim = Simulator(net, Scripted(), EventQueue([PluginEvent(ev.arrival, ev) for ev in evs]), datetime(2021, 3, 4),
+                        period=inp["period"], verbose=False)
+        holder["sim"] = sim
+        try:
+            sim.run()
+        except Exception as e:  # noqa
+            err = type(e).__name__
+        it = sim.iteration
+        pil = np.array(sim.pilot_signals)
+        rat = np.array(sim.charging_rates)
+        n = min(it, pil.shape[1], rat.shape[1])
+        out = dict(error=err, periods=int(n),
+                   pilots=[[batt.fnum(x) for x in pil[s, :n]] for s in range(len(sids))],
+                   rates=[[batt.fnum(x) for x in rat[s, :n]] for s in range(len(sids))],
+                   final=[[batt.fnum(ev.energy_delivered), batt.fnum(ev._battery._current_charge)] for ev in evs])
+        if record and err is None:
+            dfr, dfp = sim.charging_rates_as_df(), sim.pilot_signals_as_df()
+            views["df_rates"] = {sid: [batt.fnum(x) for x in dfr[sid].values[:n]] for sid in sids}
+            views["df_pilots"] = {sid: [batt.fnum(x) for x in dfp[sid].values[:n]] for sid in sids}
+            out["views"] = views
+        return out
 
     orig = np.random.normal
     np.random.normal = fake_normal
-    err = None
     try:
         with warnings.catch_warnings():
             warnings.simplefilter("ignore")
-            sim = Simulator(net, Scripted(), EventQueue(events), datetime(2021, 3, 4), period=inp["period"], verbose=False)
-            holder["sim"] = sim
-            try:
-                sim.run()
-            except Exception as e:  # noqa
-                err = type(e).__name__
+            holder["first"] = True
+            out = one_run(True)
+            holder["first"] = False
+            out["draws"] = {"%d,%d" % k: v for k, v in calls.items()}
+            if inp.get("rerun") and out["error"] is None:
+                for ev in evs:
+                    ev.reset()
+                second = one_run(False)
+                out["rerun"] = dict(error=second["error"], same=(second["pilots"] == out["pilots"] and
+                                                                  second["rates"] == out["rates"] and second["final"] == out["final"]),
+                                    rates=second["rates"])
     finally:
         np.random.normal = orig
-    it = sim.iteration
-    pil = np.array(sim.pilot_signals)
-    rat = np.array(sim.charging_rates)
-    n = min(it, pil.shape[1], rat.shape[1])
-    return dict(error=err, periods=int(n),
-                pilots=[[batt.fnum(x) for x in pil[s, :n]] for s in range(len(sids))],
-                rates=[[batt.fnum(x) for x in rat[s, :n]] for s in range(len(sids))],
-                draws={"%d,%d" % k: v for k, v in calls.items()},
-                final=[[batt.fnum(ev.energy_delivered), batt.fnum(ev._battery._current_charge)] for ev in evs])
+    out["sids"] = sids
+    return out
 
 
 def occupant(inp, station, t):
@@ -190,7 +228,7 @@ def station_cases(inp, impl):
 
 
 def rand_sim(rng, c03):
-    period = rng.choice([1, 5, 5, 15])
+    period = rng.choice([1, 5, 5, 15, 7, 2.5])
     nst = rng.choice([1, 1, 2, 3])
     stations = [dict(voltage=rng.choice([120, 208, 208, 240, 277]), evse=rand_evse(rng)) for _ in range(nst)]
     sessions = []
@@ -226,7 +264,7 @@ def rand_sim(rng, c03):
         script.append(row)
     noise = [rng.gauss(0, 1) * rng.choice([0.1, 1, 5]) for _ in range(7)] + [0.0, 100.0, -100.0]
     rng.shuffle(noise)
-    return dict(period=period, stations=stations, sessions=sessions, script=script, noise=noise)
+    return dict(period=period, stations=stations, sessions=sessions, script=script, noise=noise, rerun=rng.random() < 0.4)
 
 
 def ambiguous(inp, impl):
